@@ -582,12 +582,19 @@ class Interpreter(Interp):
             key = ("SymPySet" if isinstance(obj, SymPySet) else type(obj).__name__, attr)
             m = _CONCRETE_METHODS.get(key)
             if m is None:
+                if isinstance(obj, (str, tuple)) and hasattr(obj, attr):
+                    return _native_method(obj, attr)
                 raise OutOfReach(f"{key[0]}.{attr}")
             return lambda interp, *a, **k: m(interp, obj, *a, **k)
         if isinstance(obj, FuncVal):
             if attr == "__name__":
                 return obj.node.name if not isinstance(obj.node, ast.Lambda) else "<lambda>"
             raise OutOfReach(f"function attribute {attr}")
+        if isinstance(obj, ast.AST):
+            try:
+                return getattr(obj, attr)
+            except AttributeError:
+                raise exc("AttributeError", attr)
         if isinstance(obj, PyModule):
             if attr in obj.attrs:
                 return obj.attrs[attr]
@@ -804,6 +811,26 @@ class Interpreter(Interp):
         s.append(x)
 
 
+def _is_concrete(v):
+    if isinstance(v, (str, int, float, bool, bytes, type(None))):
+        return True
+    if isinstance(v, (list, tuple)) and not isinstance(v, SymPySet):
+        return all(_is_concrete(x) for x in v)
+    return False
+
+
+def _native_method(obj, attr):
+    """Immutable concrete receiver with all-concrete arguments: the native method is the semantics."""
+    def call(interp, *a, **k):
+        if not all(_is_concrete(x) for x in a) or not all(_is_concrete(x) for x in k.values()):
+            raise OutOfReach(f"{type(obj).__name__}.{attr} with symbolic arguments")
+        try:
+            return getattr(obj, attr)(*a, **k)
+        except (TypeError, ValueError, IndexError, KeyError) as e:
+            raise exc(type(e).__name__, str(e))
+    return call
+
+
 class SymKey:
     """Wrapper making a symbolic value usable as a key of a concrete dict (identity hashed)."""
 
@@ -880,6 +907,13 @@ def _map_pop(interp, mv, k, *default):
     raise exc("KeyError", k)
 
 
+def _map_setdefault(interp, mv, k, d):
+    if interp.eng.branch(mv.has(k), "setdefault"):
+        return mv.getitem(k)
+    mv.setitem(k, d)
+    return mv.getitem(k)
+
+
 def _set_remove(interp, sv, x):
     if not interp.eng.branch(sv.contains(x), "remove"):
         raise exc("KeyError", x)
@@ -889,6 +923,7 @@ def _set_remove(interp, sv, x):
 _VIEW_METHODS = {
     ("MapView", "get"): _map_get,
     ("MapView", "pop"): _map_pop,
+    ("MapView", "setdefault"): lambda i, mv, k, d=None: _map_setdefault(i, mv, k, d),
     ("MapView", "items"): lambda i, mv: SymItems(mv, "items"),
     ("MapView", "keys"): lambda i, mv: SymItems(mv, "keys"),
     ("MapView", "clear"): lambda i, mv: mv.clear(),
@@ -900,10 +935,15 @@ _VIEW_METHODS = {
 }
 
 
-def _dname_split(interp, dn, sep=None):
+def _dname_split(interp, dn, sep=None, maxsplit=-1):
     if sep != ".":
         raise OutOfReach("split on something other than '.'")
-    return PartsList(dn.t)
+    if maxsplit == -1:
+        return PartsList(dn.t)
+    # split('.', k): identical to the full split when the name has at most k+1 parts
+    if interp.eng.branch(nparts(dn.t) <= maxsplit + 1, f"nparts<={maxsplit + 1}"):
+        return PartsList(dn.t)
+    raise OutOfReach("split with maxsplit on a name with more parts")
 
 
 def _dname_count(interp, dn, sub):
@@ -995,6 +1035,11 @@ _CONCRETE_METHODS = {
     ("list", "reverse"): lambda i, l: l.reverse(),
     ("SymPySet", "add"): lambda i, s, x: i.pyset_add(s, x),
     ("SymPySet", "copy"): lambda i, s: SymPySet(s),
+    ("SymPySet", "union"): lambda i, s, *o: _set_union(i, s, *o),
+    ("SymPySet", "difference"): lambda i, s, o: SymPySet([x for x in s if i.contains(o, x) is False or
+                                                          (i.contains(o, x) is not True and not i.branch_truth(i.wrapb(i.contains(o, x)), "diff"))]),
+    ("SymPySet", "discard"): lambda i, s, x: _pyset_discard(i, s, x),
+    ("SymPySet", "update"): lambda i, s, *o: [i.pyset_add(s, x) for oo in o for x in i.iterate(oo)] and None,
     ("str", "split"): lambda i, s, *a: s.split(*a),
     ("str", "count"): lambda i, s, x: s.count(x),
     ("str", "startswith"): lambda i, s, x: s.startswith(x),
@@ -1007,6 +1052,22 @@ _CONCRETE_METHODS = {
     ("str", "replace"): lambda i, s, a, b: s.replace(a, b),
     ("tuple", "count"): lambda i, t, x: t.count(x),
 }
+
+
+def _set_union(i, s, *others):
+    out = SymPySet(s)
+    for o in others:
+        for x in (o if isinstance(o, (SymPySet, list, tuple)) else i.iterate(o)):
+            i.pyset_add(out, x)
+    return out
+
+
+def _pyset_discard(i, s, x):
+    for k, o in enumerate(list(s)):
+        r = i.eq(x, o)
+        if r is True or (r is not False and i.eng.branch(r, "setdup")):
+            del s[k]
+            return
 
 
 def _interleave(sep, xs):
